@@ -127,7 +127,6 @@ fn operator_matrix(ctx: &Ctx, cases: &mut Vec<(Case, bool)>) {
                             let (body, lines) = wrap(&format!("print({a} {} {b})", op.sym()), w);
                             let src = format!("{PRELUDE}{body}");
                             let cell = format!("{} {:?} {:?}", op.sym(), l, r);
-                            ctx.count_distinct_key(&cell);
                             ctx.label(if in_domain(op, l, r) { "operator cell: in domain" } else { "operator cell: type error" });
                             if in_domain(op, l, r) {
                                 match value_of(op, l, a, b) {
@@ -161,7 +160,6 @@ fn nested_eq_matrix(ctx: &Ctx, cases: &mut Vec<(Case, bool)>) {
                     };
                     let src = format!("{PRELUDE}print({ea} {} {eb})\n", op.sym());
                     let cell = format!("nested {} {:?} {:?} shape {shape}", op.sym(), l, r);
-                    ctx.count_distinct_key(&cell);
                     if in_domain(op, l, r) {
                         let v = value_of(op, l, a, b);
                         cases.push(ok_case("nested_eq", src, v.map(|v| format!("{v}\n")), cell));
@@ -190,7 +188,6 @@ fn op_assign_matrix(ctx: &Ctx, cases: &mut Vec<(Case, bool)>) {
                     };
                     let src = format!("{PRELUDE}{body}");
                     let cell = format!("{o}= form {form} {:?} {:?}", l, r);
-                    ctx.count_distinct_key(&cell);
                     if in_domain(op, l, r) {
                         let v = value_of(op, l, a, b);
                         cases.push(ok_case("op_assign", src, v.map(|v| format!("{v}\n")), cell));
@@ -250,7 +247,6 @@ fn context_matrix(ctx: &Ctx, cases: &mut Vec<(Case, bool)>) {
                 let src = format!("{PRELUDE}{}", tmpl.replace('@', v));
                 let lines = PRELUDE_LINES + tmpl.matches('\n').count() as u32;
                 let cell = format!("{name} <- {:?}", k);
-                ctx.count_distinct_key(&cell);
                 // Cells whose outcome depends on the value, not the kind,
                 // are decided per representative below.
                 let accept = match name {
@@ -327,7 +323,6 @@ fn type_function_matrix(ctx: &Ctx, cases: &mut Vec<(Case, bool)>) {
         for rep in 0..2 {
             let v = k.reps()[rep];
             let cell = format!("->type() on {:?}", k);
-            ctx.count_distinct_key(&cell);
             let src = format!("{PRELUDE}v := {v}\nprint(v->type())\n");
             if k == K::Null {
                 cases.push(err_case("type_function", src, PRELUDE_LINES + 2, vec![], cell));
